@@ -396,6 +396,15 @@ def F4_adapter(ctx, rule, b):
         ctx.unverifiable(rule, "adapter-shape|%s" % key, m.where(b), "adapter does not return exactly one async block")
         return
     ab = subs[0]
+    ab0 = ab
+    # the Continue/Break -> Ok/Err mapping may live in a crate-local helper called from the async block
+    def has_result_aggs(bx):
+        return any(kind == "stmt" and x["rv"]["k"] == "agg" and x["rv"].get("def") == "std::result::Result"
+                   for kind, dbb, si, x in get_defs(bx).of(0))
+    if not has_result_aggs(ab):
+        for bx in m.reach_bodies(ab.id):
+            if bx.id != ab.id and has_result_aggs(bx):
+                ab = bx
     oks = []
     errs = []
     for kind, dbb, si, x in get_defs(ab).of(0):
@@ -421,7 +430,7 @@ def F4_adapter(ctx, rule, b):
               "the control adapter maps Continue(()) -> Ok(()) and Break(e) -> Err(e) with e unchanged",
               "the control adapter maps arms Ok<-%s, Err<-%s" % (oks, errs))
     # the awaited future is the user's future for the same function
-    uas = user_awaits(ctx, ab)
+    uas = user_awaits(ctx, ab0)
     ctx.check(len(uas) == 1, rule, "adapter-await|%s" % key, m.where(ab),
               "the adapter awaits the user's future exactly once", "adapter awaits %d user futures" % len(uas))
 
@@ -560,63 +569,93 @@ def I2(ctx, rule, tb, inc_idx):
     ctx.check(ok, rule, "include-selects", where,
               "interrupted_next_item_include == true wraps the *tracking* stream (the item polled at interruption is recorded and passed on); false wraps the raw receiver",
               "the include flag does not select between the tracking stream and the raw receiver: %s" % {k: v[0] for k, v in arms.items()})
-    # false arm: filter_map closure: Interrupted arm clears the id and does not record it; NoInterrupt records
-    fm = [(bb, t) for bb, t in tb.calls() if callee_path(t) == "futures::StreamExt::filter_map"]
+    # false arm: the adaptor behind the raw interruptible stream: Interrupted arm clears the id and does not
+    # record it; NoInterrupt records.  (filter_map with in-place mutation, or map rebuilding the outcome)
+    fm = [(bb, t) for bb, t in tb.calls() if callee_path(t) in ("futures::StreamExt::filter_map", "futures::StreamExt::map",
+                                                                 "futures::StreamExt::inspect", "futures::StreamExt::then")
+          and any(c.kind == "call" and c[1] == "interruptible::InterruptibleStreamExt::interruptible_with"
+                  for c in walk_expr(strip_refs(expr_operand(tb, t["args"][0]))))]
     okf = False
-    why = "no filter_map behind the raw interruptible stream"
+    why = "no adaptor recording ids behind the raw interruptible stream"
     if len(fm) == 1:
         fcl = fl._closure_body_of_operand(tb, fm[0][1]["args"][1])
         if fcl is not None:
             pushes = [(bb, t) for bb, t in fcl.calls() if (callee_path(t) or "").endswith("Vec::<T, A>::push")]
             takes = [(bb, t) for bb, t in fcl.calls() if callee_path(t) == TAKE]
-            arm_of = {}
             names = {}
             for bb_, si_, s_ in fcl.stmts():
-                pl = s_["rv"].get("pl") if s_["k"] == "assign" and s_["rv"]["k"] in ("ref",) else None
-                if pl:
+                if s_["k"] != "assign":
+                    continue
+                pls = []
+                if s_["rv"]["k"] in ("ref", "copy_for_deref", "discr"):
+                    pls.append(s_["rv"]["pl"])
+                elif s_["rv"]["k"] == "use" and s_["rv"]["op"]["k"] != "const":
+                    pls.append(s_["rv"]["op"]["pl"])
+                for pl in pls:
                     for pr in pl["p"]:
-                        if isinstance(pr, dict) and "d" in pr and "name" in pr:
+                        if isinstance(pr, dict) and "d" in pr and pr.get("name") in ("Interrupted", "NoInterrupt"):
                             names[pr["d"]] = pr["name"]
+            if len(names) == 1:
+                # two-variant enum: the other index is the other variant
+                (d0, n0), = names.items()
+                names[1 - d0] = "NoInterrupt" if n0 == "Interrupted" else "Interrupted"
 
             def variant_guard(bb):
-                # value-level: which PollOutcome variant leads here (through the option local)
                 out = set()
                 for sb, vals in guards_of(fcl, bb):
                     de = switch_expr(fcl, sb)
                     if de.kind == "discr":
-                        ty = fcl.blocks[sb]["term"]
-                        d = get_defs(fcl).unique_full(ty["discr"]["pl"]["l"])
+                        d = get_defs(fcl).unique_full(fcl.blocks[sb]["term"]["discr"]["pl"]["l"])
                         if d and "PollOutcome" in d[3]["rv"]["pl"]["ty"]:
                             for v in vals:
                                 if v != "otherwise":
                                     out.add(names.get(int(v), v))
                 return out
+            # (i) the push happens only for ids of the NoInterrupt arm
+            push_ok = len(pushes) == 1
+            why_p = "expected exactly one push"
+            if push_ok:
+                direct = variant_guard(pushes[0][0])
+                if direct == {"NoInterrupt"}:
+                    push_ok = True
+                else:
+                    opt_local = None
+                    for sb, vals in guards_of(fcl, pushes[0][0]):
+                        de = switch_expr(fcl, sb)
+                        if de.kind == "discr" and strip_refs(de[1]).kind == "local":
+                            opt_local = strip_refs(de[1])[1]
+                    arms_opt = {}
+                    if opt_local is not None:
+                        for kind, bb, si, x in get_defs(fcl).of(opt_local):
+                            if kind == "stmt" and x["rv"]["k"] == "agg":
+                                arms_opt[x["rv"]["variant"]] = variant_guard(bb)
+                    push_ok = arms_opt.get("Some") == {"NoInterrupt"} and arms_opt.get("None") == {"Interrupted"}
+                    why_p = "pushed id assigned per arm: %s, direct guard %s" % (arms_opt, sorted(direct))
+            # (ii) the Interrupted arm passes on no id
             take_arms = set()
             for bb, t in takes:
                 take_arms |= variant_guard(bb)
-            # push happens only with an id that came from the NoInterrupt payload
-            push_ok = len(pushes) == 1
-            if push_ok:
-                psrc = sources_of_expr(ctx, fcl, strip_refs(expr_operand(fcl, pushes[0][1]["args"][1])))
-                # the pushed id derives from Some(*fn_id) built in the NoInterrupt arm; the Interrupted arm yields None
-                some_sites = []
-                for kind, bb, si, x in get_defs(fcl).of(pushes[0][1]["args"][1]["pl"]["l"]):
-                    pass
-                opt_local = None
-                for sb, vals in guards_of(fcl, pushes[0][0]):
-                    de = switch_expr(fcl, sb)
-                    if de.kind == "discr" and strip_refs(de[1]).kind == "local":
-                        opt_local = strip_refs(de[1])[1]
-                arms_opt = {}
-                if opt_local is not None:
-                    for kind, bb, si, x in get_defs(fcl).of(opt_local):
-                        if kind == "stmt" and x["rv"]["k"] == "agg":
-                            arms_opt[x["rv"]["variant"]] = variant_guard(bb)
-                push_ok = arms_opt.get("Some") == {"NoInterrupt"} and arms_opt.get("None") == {"Interrupted"}
-                why = "option assigned per arm: %s" % arms_opt
-            okf = push_ok and take_arms == {"Interrupted"}
+            cleared = take_arms == {"Interrupted"}
+            if not cleared:
+                # `*fn_id = None` in the Interrupted arm
+                for kind_, bb_, si_, st_ in [d for ds in get_defs(fcl).through.values() for d in ds]:
+                    rv_ = st_["rv"]
+                    if rv_["k"] == "use" and rv_["op"]["k"] != "const" and not rv_["op"]["pl"]["p"]:
+                        d_ = get_defs(fcl).unique_full(rv_["op"]["pl"]["l"])
+                        if d_ and d_[0] == "stmt":
+                            rv_ = d_[3]["rv"]
+                    if rv_["k"] == "agg" and rv_.get("variant") == "None" and variant_guard(bb_) == {"Interrupted"}:
+                        cleared = True
+            if not cleared:
+                for bb_, si_, s_ in fcl.stmts():
+                    if s_["k"] == "assign" and s_["rv"]["k"] == "agg" and (s_["rv"].get("def") or "").endswith("PollOutcome") and \
+                            s_["rv"].get("variant") == "Interrupted" and variant_guard(bb_) == {"Interrupted"}:
+                        pe = strip_refs(expr_operand(fcl, s_["rv"]["ops"][0]))
+                        if pe.kind == "agg" and pe[3] == "None":
+                            cleared = True
+            okf = push_ok and cleared
             if not okf:
-                why = "push guarded correctly: %s; id cleared on arms %s; %s" % (push_ok, sorted(take_arms), why)
+                why = "push only for NoInterrupt ids: %s (%s); Interrupted arm carries no id: %s" % (push_ok, why_p, cleared)
     ctx.check(okf, rule, "exclude-filter", where,
               "with include == false the Interrupted arm clears the id (it is neither recorded nor run) and only NoInterrupt ids are recorded",
               why)
@@ -760,8 +799,15 @@ def O_rules(ctx, rule="O"):
                 for sb, vals in guards_of(mp, dbb):
                     de = strip_refs(switch_expr(mp, sb))
                     if de.kind == "arg":
-                        arms[x["rv"]["variant"]] = sorted(vals)
-        ctx.check(arms == {"Finished": ["0"], "Interrupted": ["otherwise"]}, rule + "3", "state-map", m.where(mp),
+                        # match n { 0 => .., _ => .. }
+                        arms[x["rv"]["variant"]] = "zero" if sorted(vals) == ["0"] else ("nonzero" if "0" not in vals else "?")
+                    elif de.kind == "binop" and de[1] in ("Eq", "Ne") and (is_const(de[3], 0) or is_const(de[2], 0)):
+                        other = de[2] if is_const(de[3], 0) else de[3]
+                        if strip_refs(other).kind == "arg":
+                            tt = "otherwise" in vals and "0" not in vals
+                            zero = (de[1] == "Eq") == tt
+                            arms[x["rv"]["variant"]] = "zero" if zero else "nonzero"
+        ctx.check(arms == {"Finished": "zero", "Interrupted": "nonzero"}, rule + "3", "state-map", m.where(mp),
                   "remaining == 0 maps to Finished, anything else to Interrupted", "state mapping is %s" % arms)
         n3 = 0
         for (b, bb, t) in fl.call_sites().get(mp.id, []):
@@ -851,6 +897,15 @@ def O4(ctx, rule="O4"):
         if b is None:
             ctx.unverifiable(rule, "wrapper-body|%s" % e["name"], where, "wrapper coroutine not found")
             continue
+        def has_cf_aggs(bx):
+            return any(kind == "stmt" and x["rv"]["k"] == "agg" and x["rv"].get("def") == "std::ops::ControlFlow"
+                       for kind, dbb, si, x in get_defs(bx).of(0))
+        if not has_cf_aggs(b):
+            # mapping extracted into a crate-local helper taking the Result
+            for bid in sorted(m.reach(e["id"])):
+                bx = fb.bodies[bid]
+                if bx.kind == "fn" and has_cf_aggs(bx) and any("std::result::Result<" in bx.locals[i]["s"] for i in range(1, bx.arg_count + 1)):
+                    b = bx
         conts = []
         breaks = []
         for kind, dbb, si, x in get_defs(b).of(0):
